@@ -36,9 +36,15 @@ import (
 //     expression is replaced by the result variables;
 //   - a new function all of whose uses were inlined is blanked.
 //
-// Inlining is semantics preserving under the restrictions enforced here (no defer,
-// recover, labels or goto in the helper, no recursion, no variadics or type parameters,
-// no identifier of the helper that would resolve differently at the call site), so a
+// Further forms: `return h(..)` keeps the helper's returns as returns (tail mode; the only
+// place where a helper with deferred calls is inlined); a call whose error result is
+// tested at once is threaded (see threadable); a helper that is one `return <expr>` is
+// substituted as an expression (see planExprSites).
+//
+// Inlining is semantics preserving under the restrictions enforced here (no recover,
+// labels or goto in the helper, defer only in tail mode, no recursion, no variadics or
+// type parameters, simple assignment targets, effect-free neighbours when a call is
+// hoisted, no identifier of the helper that would resolve differently at the call site), so a
 // verdict on the normalised program holds for the program on disk. The rewritten files
 // exist only as an in-memory overlay handed to go/packages; //line directives keep every
 // reported position on the line of the file on disk. On today's tree there is no new
@@ -186,7 +192,9 @@ func normalise(p *Prog, load func(overlay map[string][]byte) (*Prog, error)) *Pr
 	}
 	if d := os.Getenv("OLRICVET_DUMP_NORMALISED"); d != "" {
 		for f, b := range overlay {
-			_ = os.WriteFile(filepath.Join(d, strings.ReplaceAll(strings.TrimPrefix(f, p.Dir+"/"), "/", "_")), b, 0o644)
+			out := filepath.Join(d, strings.TrimPrefix(f, p.Dir+"/"))
+			_ = os.MkdirAll(filepath.Dir(out), 0o755)
+			_ = os.WriteFile(out, b, 0o644)
 		}
 	}
 	return p
@@ -243,9 +251,7 @@ func inlinable(p *Prog, h *Fn) string {
 				visit(x.Body, true)
 				return false
 			case *ast.DeferStmt:
-				if !inLit {
-					why = "defer"
-				}
+				// accepted in tail position only, see hasOwnDefer
 			case *ast.LabeledStmt:
 				if !inLit {
 					why = "label"
@@ -269,6 +275,29 @@ func inlinable(p *Prog, h *Fn) string {
 	}
 	visit(d.Body, false)
 	return why
+}
+
+// hasOwnDefer: the helper defers something at its own level. Such a helper is inlined
+// only where its call is the whole operand of a return (`return h(...)`) and it has no
+// named results: its deferred calls then run when the caller returns, after the results
+// were evaluated and before the caller's own (earlier registered) deferred calls —
+// exactly when and in the order they ran before.
+func hasOwnDefer(h *Fn) bool {
+	found := false
+	var visit func(n ast.Node)
+	visit = func(n ast.Node) {
+		ast.Inspect(n, func(m ast.Node) bool {
+			switch m.(type) {
+			case *ast.FuncLit:
+				return false
+			case *ast.DeferStmt:
+				found = true
+			}
+			return true
+		})
+	}
+	visit(h.Decl.Body)
+	return found
 }
 
 // callSite is one inlinable occurrence: stmt is an element of a statement list, call the
@@ -395,7 +424,7 @@ func (p *Prog) findSites(h *Fn) []inlSite {
 						}
 					}
 				case *ast.IfStmt:
-					if as, ok := s.Init.(*ast.AssignStmt); ok && len(as.Rhs) == 1 && as.Tok == token.DEFINE {
+					if as, ok := s.Init.(*ast.AssignStmt); ok && len(as.Rhs) == 1 && (as.Tok == token.DEFINE || as.Tok == token.ASSIGN) && allSimpleLHS(as.Lhs) {
 						c = isCall(as.Rhs[0])
 					} else if s.Init == nil {
 						cond := s.Cond
@@ -419,7 +448,7 @@ func (p *Prog) findSites(h *Fn) []inlSite {
 						}
 					}
 				case *ast.SwitchStmt:
-					if as, ok := s.Init.(*ast.AssignStmt); ok && len(as.Rhs) == 1 && as.Tok == token.DEFINE {
+					if as, ok := s.Init.(*ast.AssignStmt); ok && len(as.Rhs) == 1 && (as.Tok == token.DEFINE || as.Tok == token.ASSIGN) && allSimpleLHS(as.Lhs) {
 						c = isCall(as.Rhs[0])
 					}
 				}
@@ -709,6 +738,7 @@ func (p *Prog) planSites(h *Fn, src func(string) []byte, fe fileEdits, counter *
 		})
 	}
 	visit(h.Decl.Body)
+	ownDefer := hasOwnDefer(h)
 
 	n := 0
 	for _, site := range p.findSites(h) {
@@ -763,6 +793,9 @@ func (p *Prog) planSites(h *Fn, src func(string) []byte, fe fileEdits, counter *
 		tail := false
 		if rs, isRet := site.stmt.(*ast.ReturnStmt); isRet && len(rs.Results) == 1 {
 			tail = true
+		}
+		if ownDefer && (!tail || named) {
+			continue
 		}
 		// threaded mode: the call's error result is tested at once and the failing branch
 		// T leaves the function; a helper return that is visibly an error then runs (a
@@ -1238,4 +1271,13 @@ func (p *Prog) planBlanking(helpers []*Fn, src func(string) []byte) (fileEdits, 
 		notes = append(notes, "blanked new function "+h.Name+" (all uses inlined)")
 	}
 	return fe, notes
+}
+
+func allSimpleLHS(lhs []ast.Expr) bool {
+	for _, l := range lhs {
+		if !simpleLHS(l) {
+			return false
+		}
+	}
+	return true
 }
